@@ -11,6 +11,7 @@ import (
 
 	"github.com/XiaoMi/Gaea/backend"
 	"github.com/XiaoMi/Gaea/models"
+	"github.com/XiaoMi/Gaea/mysql"
 	"github.com/XiaoMi/Gaea/util"
 	"github.com/XiaoMi/Gaea/util/sync2"
 )
@@ -95,6 +96,9 @@ func VerifNewServer(m *Manager, sessionTimeoutSec int, authPlugin, serverVersion
 	s.ServerVersion = util.CompactServerVersion(cfg.ServerVersion)
 	s.ServerVersionCompareStatus = util.NewVersionCompareStatus(cfg.ServerVersion)
 	s.AuthPlugin = cfg.AuthPlugin
+	if len(s.AuthPlugin) > 0 {
+		DefaultCapability |= mysql.ClientPluginAuth
+	}
 	s.closed = sync2.NewAtomicBool(false)
 	s.listener = l
 	s.sessionTimeout = time.Duration(sessionTimeoutSec) * time.Second
